@@ -62,6 +62,7 @@ fn main() {
         "C13" => drive::<vcore::c13::C13>(&args),
         "C20" => drive::<vcore::c20::C20>(&args),
         "C04" => drive::<vcore::c04::C04>(&args),
+        "C18" => drive::<vcore::c18::C18>(&args),
         "C15" => drive::<vcore::c15::C15>(&args),
         _ => {
             eprintln!("unknown property id {id}");
